@@ -605,6 +605,30 @@ def rule_Rsearch(text, deltas, where):
     return text
 
 
+def rule_Rskip(text, deltas, where):
+    """Rskip: `RECV.iter().skip(A).take(B)` -> `verif_skip_take(RECV, A, B)` (helper with the ASSUMED std meaning: the
+    elements [min(A,len), min(A+B,len)) in order); A and B are copied as written."""
+    toks = code_tokens(text)
+    T = lambda j: text[toks[j][1]:toks[j][2]]
+    for j in range(2, len(toks) - 8):
+        if T(j) == 'iter' and T(j - 1) == '.' and T(j + 1) == '(' and T(j + 2) == ')' and T(j + 3) == '.' and T(j + 4) == 'skip' and T(j + 5) == '(':
+            c1 = match_close(text, toks, j + 5)
+            if not (T(c1 + 1) == '.' and T(c1 + 2) == 'take' and T(c1 + 3) == '('):
+                continue
+            c2 = match_close(text, toks, c1 + 3)
+            k = j - 2
+            while k >= 0 and (toks[k][0] == 'ident' or T(k) in ('.', ':')) and T(k) not in ('in', 'let', 'return', 'match', 'if'):
+                k -= 1
+            start = toks[k + 1][1]
+            recv = text[start:toks[j - 1][1]].strip()
+            a = text[toks[j + 5][2]:toks[c1][1]].strip()
+            b = text[toks[c1 + 3][2]:toks[c2][1]].strip()
+            new = 'verif_skip_take(%s, %s, %s)' % (recv, a, b)
+            deltas.append(dict(rule='Rskip', original=text[start:toks[c2][2]], rewritten=new))
+            return text[:start] + new + text[toks[c2][2]:]
+    raise AssembleError('%s: Rskip does not apply (no `.iter().skip(A).take(B)`)' % where)
+
+
 def name_return(sig, binder):
     """`-> T` -> `-> (binder: T)`"""
     toks = code_tokens(sig)
@@ -828,6 +852,8 @@ def expand_fn(fs, assumed_override=False, notes=None):
             body = rule_R10(body, deltas, where)
         if 'Rsearch' in fs.rules:
             body = rule_Rsearch(body, deltas, where)
+        if 'Rskip' in fs.rules:
+            body = rule_Rskip(body, deltas, where)
         for (cm, ck, cn) in fs.combs:
             body = rule_Rcomb(body, cm, ck, cn, deltas, where)
         for (rule, frm, to, cnt) in fs.subs:
